@@ -149,6 +149,7 @@ theorem services_leaves : Leaves (keeps ServicesInv) where
   clearRules := fun _ _ h => h
   removeConn := fun _ _ h => h
   connect := fun _ _ _ _ _ _ h => h
+  setFull := fun _ _ h => h
 
 /-- **every reachable state has well-formed owner queues** -/
 theorem servicesInv_run (tbl : List IfaceRow) (l : Limits) (p : Policy) (evs : List Ev) :
